@@ -64,6 +64,11 @@ func c17Bodies() []c17Body {
 		cs.ExtraEips = []int{3855}
 		return cs
 	}, false))
+	out = append(out, c17CaseBody("london+{9999,3855}", func() *world.Case {
+		cs := gen.StdCase(world.London, push0, "call", 100000)
+		cs.ExtraEips = []int{9999, 3855}
+		return cs
+	}, false))
 	out = append(out, c17CaseBody("london plain", func() *world.Case { return gen.StdCase(world.London, push0, "call", 100000) }, false))
 	// journal opcodes over the shared decoder constants
 	out = append(out, c17CaseBody("journal", func() *world.Case {
@@ -272,7 +277,7 @@ func init() {
 					groups = append(groups, []int{i, j})
 				}
 			}
-			groups = append(groups, []int{1, 2, 0}, []int{4, 5, 3}, []int{6, 4, 5})
+			groups = append(groups, []int{1, 3, 0}, []int{5, 6, 4}, []int{7, 5, 6})
 			for gi, ids := range groups {
 				if !w.MineKey(fw.Hash(fmt.Sprint(ids))) {
 					continue
